@@ -1,0 +1,78 @@
+//go:build verif
+
+// Verification contracts for the operator's CreateOrUpdate mutate closures (C42; comment-only; read by
+// /verif/govc). This file contains no executable code.
+//
+// Two static clauses per closure (decided on the SSA of the real closure, no SMT):
+//   writes_unconditionally v  every field of the rendered object *v that the closure assigns at all is assigned on
+//                             every path to its return - so the value left in that field is a function of the
+//                             closure's inputs (cluster resource, environment), never of what the object held
+//                             before;
+//   deterministic             no clock, random source or map iteration is reachable from the closure (except in
+//                             the listed helpers, which copy a map into a map or into a sorted structure).
+
+package operator
+
+//@ func (r *ClusterReconciler) reconcileBrokerDeployment$1
+//@   writes_unconditionally [C42.broker_statefulset.assigned_fields_unconditional] sts
+//@   deterministic [C42.broker_statefulset.no_clock_random_or_map_order] except copyStringMap, cloneResourceList
+
+//@ func (r *ClusterReconciler) reconcileBrokerHeadlessService$1
+//@   writes_unconditionally [C42.broker_headless_service.assigned_fields_unconditional] svc
+//@   deterministic [C42.broker_headless_service.no_clock_random_or_map_order] except copyStringMap, cloneResourceList
+//@   frame_only
+
+//@ func (r *ClusterReconciler) reconcileBrokerService$1
+//@   writes_unconditionally [C42.broker_service.assigned_fields_unconditional] svc
+//@   deterministic [C42.broker_service.no_clock_random_or_map_order] except copyStringMap, cloneResourceList
+//@   frame_only
+
+//@ func (r *ClusterReconciler) reconcileBrokerHPA$1
+//@   writes_unconditionally [C42.broker_hpa.assigned_fields_unconditional] hpa
+//@   deterministic [C42.broker_hpa.no_clock_random_or_map_order] except copyStringMap, cloneResourceList
+//@   frame_only
+
+//@ func reconcileEtcdHeadlessService$1
+//@   writes_unconditionally [C42.etcd_headless_service.assigned_fields_unconditional] svc
+//@   deterministic [C42.etcd_headless_service.no_clock_random_or_map_order] except copyStringMap, cloneResourceList
+//@   frame_only
+
+//@ func reconcileEtcdClientService$1
+//@   writes_unconditionally [C42.etcd_client_service.assigned_fields_unconditional] svc
+//@   deterministic [C42.etcd_client_service.no_clock_random_or_map_order] except copyStringMap, cloneResourceList
+//@   frame_only
+
+//@ func reconcileEtcdStatefulSet$1
+//@   writes_unconditionally [C42.etcd_statefulset.assigned_fields_unconditional] sts
+//@   deterministic [C42.etcd_statefulset.no_clock_random_or_map_order] except copyStringMap, cloneResourceList
+//@   frame_only
+
+//@ func reconcileEtcdPDB$1
+//@   writes_unconditionally [C42.etcd_pdb.assigned_fields_unconditional] pdb
+//@   deterministic [C42.etcd_pdb.no_clock_random_or_map_order] except copyStringMap, cloneResourceList
+//@   frame_only
+
+//@ func reconcileEtcdSnapshotCronJob$1
+//@   writes_unconditionally [C42.etcd_snapshot_cronjob.assigned_fields_unconditional] cron
+//@   deterministic [C42.etcd_snapshot_cronjob.no_clock_random_or_map_order] except copyStringMap, cloneResourceList
+//@   frame_only
+
+//@ func reconcileEtcdMaintenanceCronJob$1
+//@   writes_unconditionally [C42.etcd_maintenance_cronjob.assigned_fields_unconditional] cron
+//@   deterministic [C42.etcd_maintenance_cronjob.no_clock_random_or_map_order] except copyStringMap, cloneResourceList
+//@   frame_only
+
+//@ func (r *ClusterReconciler) reconcileLfsProxyDeployment$1
+//@   writes_unconditionally [C42.lfs_proxy_deployment.assigned_fields_unconditional] deploy
+//@   deterministic [C42.lfs_proxy_deployment.no_clock_random_or_map_order] except copyStringMap, cloneResourceList
+//@   frame_only
+
+//@ func (r *ClusterReconciler) reconcileLfsProxyService$1
+//@   writes_unconditionally [C42.lfs_proxy_service.assigned_fields_unconditional] svc
+//@   deterministic [C42.lfs_proxy_service.no_clock_random_or_map_order] except copyStringMap, cloneResourceList
+//@   frame_only
+
+//@ func (r *ClusterReconciler) reconcileLfsProxyMetricsService$1
+//@   writes_unconditionally [C42.lfs_proxy_metrics_service.assigned_fields_unconditional] svc
+//@   deterministic [C42.lfs_proxy_metrics_service.no_clock_random_or_map_order] except copyStringMap, cloneResourceList
+//@   frame_only
